@@ -24,15 +24,25 @@ LEVEL = {'text': 'Machine-checked theorems over unbounded inputs (Props/C09.v, n
                  'PT_LOAD (C09_string_in_table, C09_strings_resolved, C09_iter_tags_linked, C09_iter_tags_pointed); the pointer->offset '
                  'mapping equals the PT_LOAD rule and is unambiguous (C09_address_offset, C09_get_table_offset); the SysV and the GNU '
                  'hash symbol counts equal the true count for every valid table (C09_count_from_sysv_hash, C09_count_from_gnu_hash). '
-                 'views_agree (segment view of the stripped image = section view of the original for images satisfying consistent_b) '
-                 'is NOT yet a Coq theorem: it is checked on every generated image by the correspondence (three views per image, '
-                 'consistent_b/sym_consistent_b/stripped_of_b evaluated by the extracted Coq predicates), as are relocation tables, '
-                 'symbol enumeration and lookup by name.  The hand model is pinned to dynamic.py/hash.py/elffile.py by differential '
-                 'runs on synthesized images in three forms and on the seed libraries stripped by the harness.',
+                 'views_agree: for EVERY image satisfying the boolean predicate consistent_b (every dynamic pointer lies in a PT_LOAD '
+                 'whose file image contains the table; the section headers describe the same bytes; .dynamic at the segment offset or '
+                 'a copy elsewhere) and EVERY stripped form of it (stripped_of_b), the DynamicSection of the original, the '
+                 'DynamicSegment of the original and the DynamicSegment of the stripped image yield exactly the standard\'s reading of '
+                 'tags and strings (C09_views_agree_tags) and the same relocation tables entry by entry (C09_views_agree_relocs). '
+                 'For every image satisfying sym_consistent_b (additionally: SHT_DYNSYM of standard entry size linked to the same '
+                 'string table, DT_SYMTAB mapped to it, names inside the table, a GNU - else SysV - hash table valid for the entry '
+                 'count) the symbols enumerated from the DynamicSegment of the stripped byte image (count from the hash table, '
+                 'get_symbol through DT_SYMTAB/DT_STRTAB) are exactly those of the SHT_DYNSYM section of the original '
+                 '(C09_views_agree_symbols).  NOT Coq theorems, pinned by correspondence only: get_symbol_by_name (a filter over '
+                 'the proved symbol list), num_tags()/get_tag(n) for n below the count (the same reads as the iterator), the '
+                 'segment-of-the-original view of symbols, and the nearest-pointer heuristic used without hash tables (outside '
+                 'the property: it cannot give the true count in general).  '
+                 'The hand model is pinned to dynamic.py/hash.py/elffile.py by differential runs on synthesized images in three '
+                 'forms and on the seed libraries stripped by the harness.',
          'design_ref': '4.9', 'technique': 'Coq proof (induction, generic layout round trip, finite sweeps over the generated '
                                             'enum dicts) + extracted-model correspondence',
          'note': 'Trusted: Coq kernel, ExtrOcamlBasic extraction, harness, gABI reading in Spec/C09Dyn.v. No axioms. '
-                 'views_agree pinned by correspondence only (see text).'}
+                 'get_symbol_by_name and get_tag(n) are pinned by correspondence only (see text).'}
 RULE = ('cases: synthesized dynamic images (both classes/byte orders; common, MIPS, AArch64, Solaris and unknown machine/OS '
         'tag sets; duplicate tags; entries and garbage after the terminator; 1-3 PT_LOAD groups with distinct address deltas, '
         'decoy and duplicate segments, shuffled program headers; GNU / SysV / both / no hash table; REL/RELA/RELR/JMPREL '
